@@ -34,7 +34,15 @@ pub enum Fault {
     /// In-place rewrite: truncate / first half / rest as three steps with
     /// scheduling points in between (zoneinfo); for the concatenated
     /// back-end a layout-preserving rewrite of the blob in two halves.
-    Rewrite { name: usize, content: Content },
+    ///
+    /// `abandon`: the writer crashes after step 1 (`1`) or step 2 (`2`) and
+    /// the torn file stays on disk; `0`: the rewrite completes.
+    Rewrite {
+        name: usize,
+        content: Content,
+        #[serde(default)]
+        abandon: u8,
+    },
     Touch { name: usize },
     Remove { name: usize },
     Corrupt { name: usize, how: CorruptHow },
@@ -409,7 +417,8 @@ pub fn generate(rng: &mut Rng, tier: Tier, force_fault_free: Option<bool>) -> Ca
                 "inplace_rewrite" => {
                     let name = target(&mut g);
                     let content = g.content(backend == Backend::ZoneInfo);
-                    Fault::Rewrite { name, content }
+                    let abandon = if g.rng.chance(1, 5) { 1 + g.rng.below(2) as u8 } else { 0 };
+                    Fault::Rewrite { name, content, abandon }
                 }
                 "touch" => Fault::Touch { name: target(&mut g) },
                 "remove" => Fault::Remove { name: target(&mut g) },
